@@ -6,20 +6,32 @@ def allRingsOf (m : MPoly) : List Ring := m.flatMap (fun p => p.ext :: p.holes)
 
 def stripNl (s : String) : String := (s.dropEndWhile (fun c => c == '\n' || c == '\r')).toString
 
-def exactResult (c : CaseSt) (k : Nat) : Option MPoly :=
-  match (c.runs[k]?).bind (·.req) with
-  | some rq =>
-    match Run.runBoolReq rq Arith.exact with
-    | .ok o => some o.result
-    | .error _ => none
-  | none => none
+/-- the result of run `k` under exact arithmetic; operands that were `@j` references are replaced by the
+    exact result of run `j`, so that a whole chain is re-evaluated exactly -/
+def exactResult (c : CaseSt) : Nat → Nat → Option MPoly
+  | 0, _ => none
+  | fuel + 1, k =>
+    match c.runs[k]? with
+    | some r =>
+      match r.req with
+      | some rq =>
+        let a := match r.refA with | some j => exactResult c fuel j | none => some rq.a
+        let b := match r.refB with | some j => exactResult c fuel j | none => some rq.b
+        match a, b with
+        | some a, some b =>
+          match Run.runBoolReq { rq with a := a, b := b, cfg := { rq.cfg with budget := 50000 } } Arith.exact with
+          | .ok o => some o.result
+          | .error _ => none
+        | _, _ => none
+      | none => none
+    | none => none
 
 /-- classification of a failed check: does the model under exact arithmetic satisfy it on the same
     inputs, are the inputs degenerate (exact incidences), was the rounded run exact? -/
 def classify (c : CaseSt) (toks : List String) : String :=
   let ks := referencedRuns toks
   let ks := ks.filter (fun k => ((c.runs[k]?).bind (·.req)).isSome)
-  let exacts := ks.map (fun k => (k, exactResult c k))
+  let exacts := ks.map (fun k => (k, exactResult c 4 k))
   let ov : Override := fun k => (exacts.lookup k).join
   let allOk := exacts.all (fun (_, r) => r.isSome)
   let isSweep := toks.head? == some "planar" || toks.head? == some "flags"
@@ -82,7 +94,12 @@ partial def loop (hin hout : IO.FS.Stream) (c : CaseSt) : IO Unit := do
         | some kn, some "BOOL" =>
           let toks := (reqS.splitOn " ").filter (· ≠ "") |>.toArray
           match Run.parseBool c.resolve { toks := toks, pos := 1 } with
-          | some (rq, _) => setRun c kn (fun r => { r with req := some rq })
+          | some (rq, _) =>
+            -- operand references: `BOOL prec op dbg budget pairing <A> <B>`; A is token 6
+            let refOf (t : Option String) : Option Nat := t.bind (fun t => if t.startsWith "@" then (t.drop 1).toString.toNat? else none)
+            let refA := refOf toks[6]?
+            let refB := if refA.isSome then refOf toks[7]? else refOf (toks.toList.getLast?)
+            setRun c kn (fun r => { r with req := some rq, refA := refA, refB := refB })
           | none => c
         | some kn, some "SUBDIV" =>
           let toks := (reqS.splitOn " ").filter (· ≠ "") |>.toArray
